@@ -37,6 +37,8 @@ class KSched:
         self.tls = threading.local()
         self.p = 0.0
         self.active = False
+        self.shared_state_seen = 0
+        self.dec_class = None
 
     def collect(self):
         if self.codes_line:
@@ -63,6 +65,7 @@ class KSched:
                                                             "build_and_group_switch_cases", "group_switch_cases", "build_switch_fallthroughs",
                                                             "build_loops", "remove_label_markers", "_get_edges")]
         start += [P.execATN, P.closure, L.execATN, macro.ExplorerScriptMacro.build, sd.ExplorerScriptSsbDecompiler.source_map_add_opcode]
+        self.dec_class = sd.ExplorerScriptSsbDecompiler
         self.codes_line = [c for c in map(code, line) if c is not None]
         self.codes_start = [c for c in map(code, start) if c is not None]
         for c in self.codes_line + self.codes_start:
@@ -74,6 +77,10 @@ class KSched:
             return
         if len(self.events) < 20000:
             self.events.append(idx)
+        # invariant at the hook: the class-level defaults of the decompiler are never written (they would be shared by the threads)
+        d = self.dec_class.__dict__
+        if d.get("labels_already_printed") or d.get("forever_start_handler_stack"):
+            self.shared_state_seen += 1
         if self.tls.rng.random() < self.p:
             k = self.site.get(code, "?")
             self.yields[k] = self.yields.get(k, 0) + 1
@@ -226,6 +233,9 @@ def run_schedule(acc, pool, gold, sched, base_inp):
         acc.violation(gsig("memo-entry-of-another-graph-answered"), e, inp)
     for name, val in hist.class_level_state_problems():
         acc.violation(gsig("class-level-state-written", name), {"value": val}, inp)
+    if KS.shared_state_seen:
+        acc.violation(gsig("class-level-state-written", "seen-non-empty-while-threads-were-decompiling"), {"observations": KS.shared_state_seen}, inp)
+        KS.shared_state_seen = 0
     return True
 
 
